@@ -3,6 +3,7 @@ import ast
 
 from . import rule, info
 from ..program import AnalysisError, src, norm, ClassInfo
+from ..pattern import match, matches
 from ..util import (is_name, calls_in, callee_qual, deref, ancestors, evaluator_calls, stmt_of, parent)
 
 info('C07',
@@ -420,7 +421,11 @@ def binders_pass_through(ctx):
     cfg = ctx.cfg(u)
     target, scope = u.params[0], u.params[2]
     ups = [c for c in calls_in(u) if isinstance(c.func, ast.Attribute) and c.func.attr == 'update' and is_name(c.func.value, scope)]
-    ctx.require(len(ups) == 1, "_t_eval: S(...) binding update not found")
+    ctx.ob(len(ups) == 1, u, 'S(a=.., b=..) evaluates all its keyword specs before binding any of them (one scope.update of a '
+           'comprehension): a later keyword never sees an earlier one of the same call',
+           '' if len(ups) == 1 else 'found %d scope.update(...) calls' % len(ups))
+    if len(ups) != 1:
+        return
     up = ups[0]
     a = up.args[0] if up.args else None
     ok = isinstance(a, ast.DictComp) and isinstance(a.value, ast.Call) and callee_qual(p, u, a.value) == 'core.arg_val' \
@@ -459,4 +464,13 @@ def binders_pass_through(ctx):
     ru = ctx.unit('matching.Regex.glomit')
     ups = [c for c in calls_in(ru) if isinstance(c.func, ast.Attribute) and c.func.attr == 'update' and is_name(c.func.value, ru.params[2])]
     ctx.ob(len(ups) == 1, ru, 'Regex binds named groups in its own frame: %s' % [norm(c) for c in ups])
+    # Pipe: the steps are evaluated as they were given -- a nested Pipe stays one step with its own
+    # frame, so names it binds end with it
+    pu = ctx.unit('core.Pipe.glomit')
+    pr = [n for n in pu.own_nodes() if isinstance(n, ast.Return)]
+    okp = len(pr) == 1 and isinstance(pr[0].value, ast.Call) and callee_qual(p, pu, pr[0].value) == 'core._handle_tuple' \
+        and len(pr[0].value.args) == 3 and is_name(pr[0].value.args[0], pu.params[1]) \
+        and matches(pr[0].value.args[1], '%s.steps' % pu.params[0]) and is_name(pr[0].value.args[2], pu.params[2])
+    ctx.ob(okp, pu, 'Pipe evaluates its own steps unchanged as one chain: %s' % [norm(x) for x in pr],
+           '' if okp else 'the steps handed to the chain evaluator are not self.steps itself (nested chains would lose their frame)')
     ctx.floor(9)
